@@ -17,6 +17,7 @@ func extractAll(p *pkg, f *facts) {
 	configFacts(p, f)
 	startupFacts(p, f)
 	tlsFacts(p, f)
+	poolFacts(p, f)
 }
 
 func (p *pkg) constNat(f *facts, leanName, goName string) {
@@ -658,5 +659,35 @@ func tlsFacts(p *pkg, f *facts) {
 		f.boolean("tlsCloneSharesCert", shares && ptr, true, "")
 	} else {
 		f.boolean("tlsCloneSharesCert", false, false, "func Clone not found")
+	}
+}
+
+func poolFacts(p *pkg, f *facts) {
+	if fn, ok := p.funcs["WorkerPool.Stop"]; ok {
+		// after p.wg.Wait(): a loop over the (closed) queue that closes the tasks' result channels
+		var waitPos token.Pos
+		drains := false
+		ast.Inspect(fn.Body, func(n ast.Node) bool {
+			switch t := n.(type) {
+			case *ast.CallExpr:
+				if exprString(p.fset, t.Fun) == "p.wg.Wait" {
+					waitPos = t.Pos()
+				}
+			case *ast.RangeStmt:
+				if waitPos != 0 && t.Pos() > waitPos && strings.Contains(exprString(p.fset, t.X), "taskQueue") &&
+					strings.Contains(exprString(p.fset, t.Body), "close(task.ResultChan)") {
+					drains = true
+				}
+			}
+			return true
+		})
+		f.boolean("poolStopDrains", drains, true, "")
+	} else {
+		f.boolean("poolStopDrains", false, false, "func Stop not found")
+	}
+	if fn, ok := p.funcs["WorkerPool.Resize"]; ok {
+		f.boolean("poolResizeSendsNil", strings.Contains(exprString(p.fset, fn.Body), "ResultChan <- nil"), true, "")
+	} else {
+		f.boolean("poolResizeSendsNil", false, false, "func Resize not found")
 	}
 }
